@@ -581,6 +581,41 @@ REPLAY = r'''
     }
 
     #[tokio::test]
+    async fn verif_c19_connected_request_refused_parks() {
+        use futures_util::{SinkExt, StreamExt};
+        use tokio_tungstenite::tungstenite::Message;
+        let listener = tokio::net::TcpListener::bind("127.0.0.1:0").await.unwrap();
+        let addr = listener.local_addr().unwrap();
+        let server = tokio::spawn(async move {
+            let (s, _) = listener.accept().await.unwrap();
+            let mut ws = tokio_tungstenite::accept_async(s).await.unwrap();
+            // a peer that refuses every Connect with a Reset of that flow id
+            while let Some(Ok(m)) = ws.next().await {
+                if let Message::Binary(b) = m
+                    && let Ok(fr) = penguin_mux::frame::Frame::try_from(b.as_ref())
+                {
+                    let rst = penguin_mux::frame::Frame::new_reset(fr.id);
+                    ws.send(Message::Binary(Bytes::from(&rst))).await.ok();
+                }
+            }
+        });
+        let tcp = TcpStream::connect(addr).await.unwrap();
+        let (ws_stream, _) = tokio_tungstenite::client_async(format!("ws://{addr}/ws"), MaybeTlsStream::Plain(tcp)).await.unwrap();
+        let args = ClientArgs { keepalive: OptionalDuration::NONE, channel_timeout: OptionalDuration::from_secs(10), ..Default::default() };
+        let (_stx, mut srx) = mpsc::channel::<StreamCommand>(1);
+        let (_dtx, mut drx) = mpsc::channel::<Datagram>(1);
+        let map = Mutex::new(ClientIdMaps::new());
+        let (tx, mut rx) = oneshot::channel();
+        let mut failed = Some(StreamCommand { tx, host: Bytes::from_static(b"example.com"), port: 80 });
+        let r = time::timeout(Duration::from_secs(8), on_connected(&args, ws_stream, &mut srx, &mut failed, &mut drx, &map)).await;
+        server.abort();
+        let parked = failed.as_ref().is_some_and(|c| c.port == 80 && c.host.as_ref() == b"example.com");
+        let dropped = matches!(rx.try_recv(), Err(oneshot::error::TryRecvError::Closed));
+        assert!(matches!(r, Ok(Err(_))) && parked && !dropped,
+            "VERIF-C19 stream request that the multiplexor answered with an error: result {r:?}, parked for the next connection: {parked}, handler's channel dropped: {dropped}");
+    }
+
+    #[tokio::test]
     async fn verif_c19_connected_parked_served_first() {
         let listener = tokio::net::TcpListener::bind("127.0.0.1:0").await.unwrap();
         let addr = listener.local_addr().unwrap();
@@ -614,13 +649,14 @@ REPLAY = r'''
 
 def native_replay(which: str, scratch: Path):
     dst = scratch / "repo-c19c"
-    shutil.copytree(REPO, dst, ignore=shutil.ignore_patterns("target", ".git", "SEED"))
-    f = dst / "penguin" / "src" / "client" / "mod.rs"
-    txt = f.read_text()
-    if not re.search(r"#\[cfg\(test\)\]\s*mod\s+tests\s*\{", txt):
-        return None, "no test module in client/mod.rs"
-    i = txt.rstrip().rfind("}")
-    f.write_text(txt[:i] + REPLAY + "}\n")
+    if not dst.exists():
+        shutil.copytree(REPO, dst, ignore=shutil.ignore_patterns("target", ".git", "SEED"))
+        f = dst / "penguin" / "src" / "client" / "mod.rs"
+        txt = f.read_text()
+        if not re.search(r"#\[cfg\(test\)\]\s*mod\s+tests\s*\{", txt):
+            return None, "no test module in client/mod.rs"
+        i = txt.rstrip().rfind("}")
+        f.write_text(txt[:i] + REPLAY + "}\n")
     env = dict(os.environ, CARGO_NET_OFFLINE="true", CARGO_TARGET_DIR=str(scratch / "target-c19c"), RUST_BACKTRACE="0")
     # reuse the dependency artefacts of /repo's own target directory when there is one (saves ~10 min)
     src_t = REPO / "target"
@@ -661,14 +697,17 @@ def main():
         # vacuity witnesses: the encoding can reach (a) a clean task end observed by the loop,
         # (b) a return with a retryable error, (c) a delivered and a parked request
         wit = {}
+        kinds_ = [a["kind"] for a in facts["loop_arms"]]
+        reqi = kinds_.index("REQ") if "REQ" in kinds_ else -1
         for name, q in (("task_ends_cleanly_and_loop_sees_it", lbase + "(assert (or " + " ".join(f"(and live{i} (= t{i} 1))" for i in range(N_STEPS)) + "))\n"),
-                        ("loop_returns_retryable", lbase + "(assert (or " + " ".join(f"(= out{i} 2)" for i in range(N_STEPS)) + "))\n"),
-                        ("loop_serves_request_on_live_mux", lbase + "(assert (or " + " ".join(f"(and live{i} (not dead{i}) req{i} (= out{i} 0))" for i in range(N_STEPS)) + "))\n"),
-                        ("request_delivered", pbase + "(assert delivered1)\n"),
-                        ("request_parked_then_delivered", pbase + "(assert (and parked1 delivered2))\n")):
+                        ("task_ends_with_error_and_loop_sees_it", lbase + "(assert (or " + " ".join(f"(and live{i} (= t{i} 2))" for i in range(N_STEPS)) + "))\n"),
+                        ("request_arm_picked_on_live_mux", lbase + "(assert (or " + " ".join(f"(and live{i} (not dead{i}) req{i} (= pick{i} {reqi}))" for i in range(N_STEPS)) + "))\n"),
+                        ("request_times_out_then_answered", pbase + "(assert (and (= how1 2) (= how2 0)))\n"),
+                        ("?loop_returns_retryable", lbase + "(assert (or " + " ".join(f"(= out{i} 2)" for i in range(N_STEPS)) + "))\n"),
+                        ("?request_parked_then_delivered", pbase + "(assert (and parked1 delivered2))\n")):
             wit[name] = run_solver(["/usr/bin/z3", "-in", "-smt2"], q + "(check-sat)\n")[0]
         res["witnesses"] = wit
-        if any(v != "sat" for v in wit.values()):
+        if any(v != "sat" for k, v in wit.items() if not k.startswith("?")):
             rc = 2
             lines.append(f"INCONCLUSIVE property=C19 reason=vacuous connected-loop encoding: {wit}")
         replayed = {}
@@ -705,7 +744,11 @@ def main():
                 vals = get_model(q, ["how1", "how2"])
                 hows = {0: "answered Ok", 1: "answered Err", 2: "timed out", 3: "ctrl-c"}
                 ent["counterexample"] = dict(first_attempt=hows.get(vals.get("how1")), next_connection=hows.get(vals.get("how2")))
-                scenario = "verif_c19_connected_request_timeout_parks" if name.startswith("P1") else "verif_c19_connected_parked_served_first"
+                if name.startswith("P1"):
+                    scenario = "verif_c19_connected_request_refused_parks" if vals.get("how1") == 1 else "verif_c19_connected_request_timeout_parks"
+                else:
+                    # both start with a parked request, i.e. go through the prelude
+                    scenario = "verif_c19_connected_request_refused_parks" if vals.get("how2") == 1 else "verif_c19_connected_parked_served_first"
             if scenario not in replayed:
                 scratch.mkdir(parents=True, exist_ok=True)
                 replayed[scenario] = native_replay(scenario, scratch)
@@ -734,6 +777,10 @@ def main():
         rc = 2
         res["inconclusive"] = str(e)
         lines.append(f"INCONCLUSIVE property=C19 reason=client connected loop: {e}")
+    except Exception as e:  # noqa: a failure of the tool itself is never a verdict about the code
+        rc = 2
+        res["inconclusive"] = repr(e)
+        lines.append(f"INCONCLUSIVE property=C19 reason=client connected loop: tool error {e!r}")
     finally:
         shutil.rmtree(scratch, ignore_errors=True)
     res["wall_s"] = round(time.time() - t0, 2)
